@@ -46,7 +46,11 @@ def budget(tier):
 
 
 def strategy(tier):
-    return A.dating_case(tier)
+    # one case in four is a variational_gamma run on an input with internal samples (samples of known
+    # age that are parents): the forced pass treats fixed nodes specially, the other classes reach
+    # that code only rarely
+    return st.one_of(A.dating_case(tier), A.dating_case(tier), A.dating_case(tier),
+                     A.dating_case(tier, methods=("variational_gamma",), want="internal", unphased=False))
 
 
 DEFAULT_EPS = 1e-8
